@@ -269,7 +269,7 @@ QUICK_DENY = [
     r"skein_mode::quick::c05_skein1024_(1|32|64|129|200)_", r"skein_ubi::c05_process_block1024",
     # Skein-1024 is the same define_hasher! body as Skein-256/512 and each of its harnesses costs 5-7 CPU minutes
     # (GenericArray<u8, U128> iterator plumbing): quick keeps six boundary shapes, thorough runs all
-    r"skein_mode::quick::c05_skein1024_128_finalize_p(1|64|127)$", r"skein_mode::quick::c08_skein1024_128_update_p(0_n0|0_n128|0_n257|127_n2|128_n129|128_n128|1_n127)$",
+    r"skein_mode::quick::c05_skein1024_128_finalize_p(0|1|64|127)$", r"skein_mode::quick::c05_skein512_32_", r"skein_mode::quick::c08_skein1024_128_update_p(0_n0|0_n128|0_n257|127_n2|128_n129|128_n128|1_n127)$",
     r"tf1024::c09_encrypt_wiring$", r"tf1024::c10_decrypt_wiring$",                     # the Verus route covers the 1024-bit cores in quick
 ]
 # harnesses known to be slow are started first (longest-first scheduling shortens the critical path)
